@@ -206,7 +206,7 @@ B('c02-and-or-swapped', 'C02', 'R02.c', VMMATH,
 B('c02-randrange', 'C02', 'R02.d', MATH,
   "py_random.randint(min, max)", "py_random.randrange(min, max)")
 B('c02-uminus-dropped-rvalue', 'C02', 'R02.g', PARSE,
-  "            if uminus:\n                value *= -1\n", "")
+  "                value *= -1\n", "                pass\n")
 B('c02-uminus-dropped-atom', 'C02', 'R02.g', EXPR,
   """            if uminus:
                 self.code_gen.add_list(
@@ -1349,3 +1349,50 @@ N('c20-none-check-flipped', 'C20', FRONT,
         if script_control is not None:
             return self.render_action(script_control, "Requested")
         return self.index()""")
+
+# ---------------------------------------------- added after the seeded round
+B('c02-climb-arg-op-prec', 'C02', 'R02.f', EXPR,
+  "                if not self._expression(self.current_token.prec):", "                if not self._expression(op.prec):")
+B('c02-climb-inner-ge', 'C02', 'R02.f', EXPR,
+  "                        and self.current_token.prec > op.prec)", "                        and self.current_token.prec >= op.prec)")
+B('c02-climb-no-right-assoc', 'C02', 'R02.f', EXPR,
+  """            while ((self.current_token.is_binop
+                        and self.current_token.prec > op.prec)
+                    or (self.current_token.assoc is Assoc.RIGHT
+                        and self.current_token.prec == op.prec)):""",
+  """            while (self.current_token.is_binop
+                        and self.current_token.prec > op.prec):""")
+B('c02-climb-outer-gt', 'C02', 'R02.f', EXPR,
+  "                and self.current_token.prec >= min_prec):", "                and self.current_token.prec > min_prec):")
+B('c11-copy-shares-list', 'C11', 'R11.c', TIMEPAT,
+  "        new_pattern._alternatives = list(self._alternatives)", "        new_pattern._alternatives = self._alternatives")
+N('c11-copy-slice', 'C11', TIMEPAT,
+  "        new_pattern._alternatives = list(self._alternatives)", "        new_pattern._alternatives = self._alternatives[:]")
+B('c14-time-only-to-logical', 'C14', 'R14.b', MACHINE,
+  "        elif from_mode is UnitMode.RAW:", "        elif to_mode is UnitMode.LOGICAL and from_mode is UnitMode.RAW:")
+B('c16-splitlines', 'C16', 'R16.f', LEX,
+  "        self._lines = iter(input_string.split('\\n'))", "        self._lines = iter(input_string.splitlines())")
+B('c16-unescape-before-strip', 'C16', 'R16.f', LEX,
+  """                        u_matched = u_matched[1:-1]
+                        u_matched = u_matched.replace(r'\\"', '"')""",
+  """                        u_matched = u_matched.replace(r'\\"', '"')[1:-1]""")
+N('c16-strip-unescape-chained', 'C16', LEX,
+  """                        u_matched = u_matched[1:-1]
+                        u_matched = u_matched.replace(r'\\"', '"')""",
+  """                        u_matched = u_matched[1:-1].replace(r'\\"', '"')""")
+B('c20-is-running-shadowed', 'C20', 'R20.e', JOBS,
+  """                if (self._active_agent is not None
+                        and self._active_agent.name == name):
+                    result = True
+                else:""",
+  """                if self._active_agent is not None:
+                    result = self._active_agent.name == name
+                else:""")
+B('c01-unwind-one-frame', 'C01', 'R03.b', CALLSTACK,
+  "        while isinstance(self._top, LoopFrame):\n            self._top = self._top.parent",
+  "        if isinstance(self._top, LoopFrame):\n            self._top = self._top.parent")
+B('c06-loop-stack-not-cleared', 'C06', 'R17.a', CONTEXT,
+  "        self._locals.clear()\n        self._loop_stack.clear()", "        self._locals.clear()")
+B('c08-has-jobs-never', 'C08', 'R08.a', JOBS,
+  "    def get_current(self):\n        return self._active_agent",
+  "    def get_current(self):\n        return self._active_agent if self._active_agent else None")
